@@ -9,6 +9,7 @@ import (
 	"fmt"
 	"io"
 	"sync"
+	"time"
 
 	imap "github.com/emersion/go-imap/v2"
 	"github.com/emersion/go-imap/v2/imapserver"
@@ -52,12 +53,28 @@ type Core struct {
 	AppendReadLimit int64
 	// Mechs for SessionSASL variants.
 	Mechs []string
+	// IdleExitDelay makes Idle take this long to return after stop was closed
+	// (a backend that is slow to wind down).
+	IdleExitDelay time.Duration
+	idling        bool     // Idle has been entered and has not returned yet
+	overlaps      []string // session methods invoked while Idle was still running
 }
 
 func NewCore() *Core { return &Core{AppendReadLimit: -1, Mechs: []string{"PLAIN"}} }
 
+// Overlaps lists the session methods (Close included) that the server invoked
+// while an earlier Idle call of the same session had not returned yet.
+func (c *Core) Overlaps() []string {
+	c.mu.Lock()
+	defer c.mu.Unlock()
+	return append([]string(nil), c.overlaps...)
+}
+
 func (c *Core) record(method string, args map[string]any) error {
 	c.mu.Lock()
+	if c.idling && method != "Idle" {
+		c.overlaps = append(c.overlaps, method)
+	}
 	c.calls = append(c.calls, Call{Method: method, Args: args})
 	out := c.Outcome
 	c.mu.Unlock()
@@ -103,6 +120,9 @@ func (c *Core) CloseCount() int {
 
 func (c *Core) Close() error {
 	c.mu.Lock()
+	if c.idling {
+		c.overlaps = append(c.overlaps, "Close")
+	}
 	c.closeCount++
 	c.mu.Unlock()
 	return nil
@@ -222,10 +242,22 @@ func (c *Core) Idle(w *imapserver.UpdateWriter, stop <-chan struct{}) error {
 	if err := c.record("Idle", map[string]any{}); err != nil {
 		return err
 	}
+	c.mu.Lock()
+	c.idling = true
+	delay := c.IdleExitDelay
+	c.mu.Unlock()
+	defer func() {
+		c.mu.Lock()
+		c.idling = false
+		c.mu.Unlock()
+	}()
 	if c.OnIdle != nil {
 		return c.OnIdle(w, stop)
 	}
 	<-stop
+	if delay > 0 {
+		time.Sleep(delay)
+	}
 	return nil
 }
 
